@@ -207,3 +207,9 @@ pub open spec fn elst_at(d: Seq<u8>, p: int, b: ElstBox) -> bool {
     &&& be32(d, p + 12) == b.entries@.len()
     &&& elst_entries_at(d, p, b.version, b.entries@, b.entries@.len() as int)
 }
+
+/// edts (8.6.5) whose body starts at q: the crate looks at the first child only; an edit list there is decoded
+pub open spec fn edts_at(d: Seq<u8>, q: int, b: EdtsBox) -> bool {
+    &&& (b.elst is Some <==> child_name(d, q) == BoxType::ElstBox)
+    &&& (b.elst matches Some(e) ==> elst_at(d, child_q(d, q) - 8, e))
+}
